@@ -19,9 +19,9 @@ const modPath = "github.com/energomonitor/bisquitt"
 // overlayFor builds the overlay map for the given package directories.
 func overlayFor(pkgDirs []string) (map[string][]byte, error) {
 	ov := map[string][]byte{}
-	tmpl, err := os.ReadFile(filepath.Join(verifDir, "harness", "vlib.go.tmpl"))
-	if err != nil {
-		return nil, err
+	shared, _ := filepath.Glob(filepath.Join(verifDir, "harness", "shared", "*.go.tmpl"))
+	if len(shared) == 0 {
+		return nil, fmt.Errorf("no shared harness templates found")
 	}
 	for _, d := range pkgDirs {
 		files, _ := filepath.Glob(filepath.Join(verifDir, "harness", d, "*.go"))
@@ -44,7 +44,14 @@ func overlayFor(pkgDirs []string) (map[string][]byte, error) {
 			}
 			ov[filepath.Join(repoDir, d, "zz_verif_"+filepath.Base(f))] = b
 		}
-		ov[filepath.Join(repoDir, d, "zz_verif_lib.go")] = []byte(strings.Replace(string(tmpl), "PKGNAME", pkgName, 1))
+		for _, sf := range shared {
+			tmpl, err := os.ReadFile(sf)
+			if err != nil {
+				return nil, err
+			}
+			base := strings.TrimSuffix(filepath.Base(sf), ".go.tmpl")
+			ov[filepath.Join(repoDir, d, "zz_verif_shared_"+base+".go")] = []byte(strings.Replace(string(tmpl), "PKGNAME", pkgName, 1))
+		}
 	}
 	return ov, nil
 }
